@@ -655,4 +655,380 @@ theorem stopSblocks_spec (bs : List Blk) (failed inited started timers0 : List N
     rw [sb_for2 _ _ _ _ _ _ _ hS]
     simp [Lifecycle.stopSblocks]
 
+/-! ### `run_forever` -/
+
+/-- where the try block of run_forever is left, by the model's plan -/
+theorem plan_phase_cases (c : Cfg) :
+    ((startLoop 0 c.blocks).2.2 = true ∧ (plan c).phase = .startFailed ∧ (plan c).isError = true) ∨
+    ((startLoop 0 c.blocks).2.2 = false ∧ (plan c).phase = .afterStart) ∨
+    ((startLoop 0 c.blocks).2.2 = false ∧ (plan c).phase = .asyncInit) ∨
+    ((startLoop 0 c.blocks).2.2 = false ∧ (plan c).phase = .initFailed ∧ (plan c).isError = true) ∨
+    ((startLoop 0 c.blocks).2.2 = false ∧ (plan c).phase = .evalFailed ∧ (plan c).isError = true) ∨
+    ((startLoop 0 c.blocks).2.2 = false ∧ (plan c).phase = .running) := by
+  obtain ⟨a, b, d, e, x, h1, h2⟩ : ∃ a b d e x,
+      (plan c).phase = phaseOf (startLoop 0 c.blocks).2.2 a b d e ∧
+      (plan c).isError = (match (plan c).phase with
+        | .startFailed | .initFailed | .evalFailed => true
+        | _ => x) := ⟨_, _, _, _, _, rfl, rfl⟩
+  rw [h2, h1]
+  cases (startLoop 0 c.blocks).2.2 <;> cases a <;> cases b <;> cases d <;> cases e <;> simp [phaseOf]
+
+/-- `except Class` for the two kinds of errors the model distinguishes -/
+def errIs : Err → String → Bool
+  | .cancelled, c => c == "asyncio.CancelledError"
+  | .failure, c => c == "Exception"
+
+@[simp] theorem errIs_cc : errIs .cancelled "asyncio.CancelledError" = true := by decide
+@[simp] theorem errIs_ce : errIs .cancelled "Exception" = false := by decide
+@[simp] theorem errIs_fc : errIs .failure "asyncio.CancelledError" = false := by decide
+@[simp] theorem errIs_fe : errIs .failure "Exception" = true := by decide
+
+structure RfState where
+  simtask : Bool := false            -- `self._simtask is not None`
+  error : Option Err := none         -- `self._error`
+  started : List Nat := []           -- the local `started_blocks`
+  startOk : Bool := false            -- the local `start_ok`
+  trace : List Ev := []
+  storage : List Nat := []
+  timers : List Nat := []
+  endTime : Nat := 0
+  pending : Bool := false            -- a cancellation of the simulation task is still to be delivered
+
+/-- `Circuit.abort(exc)` by whoever terminates the simulation: recorded only if nothing was recorded -/
+def abortBy (p : Plan) (s : RfState) : RfState :=
+  { s with error := match s.error with
+      | some e => some e
+      | none => some (if p.isError then .failure else .cancelled) }
+
+/-- the primitives of `run_forever`: WHERE the try block is left is read off the model's plan
+    (`(plan c).phase`); what follows from it is the translated skeleton's business -/
+@[reducible] def rfPrims (c : Cfg) : TrL.RunForeverPrims RfState Err Nat where
+  mkExc _ _ := .failure
+  excIs := errIs
+  enum := id
+  simtaskSet s := s.simtask
+  simtaskDone _ := false
+  testEager := M.pure ()
+  setSimtask := fun s => ({ s with simtask := true }, .next ())
+  getStartedBlocks := fun s => (s, .next s.started)
+  setStartedBlocks l := fun s => ({ s with started := l }, .next ())
+  addStartedBlocks k := fun s => ({ s with started := s.started ++ [k] }, .next ())
+  getStartOk := fun s => (s, .next s.startOk)
+  setStartOk b := fun s => ({ s with startOk := b }, .next ())
+  getError s := s.error
+  setError e := fun s => ({ s with error := some e }, .next ())
+  errIsCancelled s := s.error == some .cancelled
+  noBlocks _ := c.blocks.isEmpty
+  newQueue := M.pure ()
+  newInitDone := M.pure ()
+  checkPersistentData := M.pure ()
+  resolve := M.pure ()
+  finalize := M.pure ()
+  allBlocks := List.range c.blocks.length
+  start k := fun s =>
+    if (blk c.blocks k).fStart then ({ s with trace := s.trace ++ [Ev.start k] }, .raise .failure)
+    else ({ s with trace := s.trace ++ [Ev.start k, Ev.started k] }, .next ())
+  sleep0 := fun s =>
+    if s.error.isNone then
+      -- the yield after the start loop
+      if (plan c).phase == .afterStart then (abortBy (plan c) s, .raise .cancelled) else (s, .next ())
+    else
+      -- the yield that delivers a pending cancellation
+      if s.pending then ({ s with pending := false }, .raise .cancelled) else (s, .next ())
+  initSync1 := M.pure ()
+  initAsync := fun s =>
+    if (plan c).phase == .asyncInit then (abortBy (plan c) s, .raise .cancelled) else (s, .next ())
+  initSync2 := fun s => if (plan c).phase == .initFailed then (s, .raise .failure) else (s, .next ())
+  initDoneSet := M.pure ()
+  simulate := fun s =>
+    if (plan c).phase == .evalFailed then (s, .raise .failure)
+    else if (plan c).pendingCancel then
+      -- abort() called inside the simulation task, then an exception: the cancellation stays pending
+      ({ abortBy (plan c) { s with trace := s.trace ++ (plan c).puts } with pending := true }, .raise .failure)
+    else (abortBy (plan c) { s with trace := s.trace ++ (plan c).puts }, .raise .cancelled)
+  storageSet _ := true
+  isPersistence _ := true
+  saveState k := fun s =>
+    ({ s with storage := saveOne c.blocks (consumePending (plan c)) s.storage k }, .next ())
+  stampStopTime := M.pure ()
+  stopSblocks blocks := fun s =>
+    if s.pending && !c.oa.isEmpty then
+      ({ s with trace := s.trace ++ c.oa.map Ev.stop, timers := (plan c).timers, endTime := (plan c).termTime },
+       .raise .cancelled)
+    else
+      ({ s with
+          trace := s.trace ++ (Lifecycle.stopSblocks c.blocks (plan c).failed (plan c).inited blocks
+            (plan c).timers c.oa c.os).trace
+          timers := (Lifecycle.stopSblocks c.blocks (plan c).failed (plan c).inited blocks
+            (plan c).timers c.oa c.os).st.timers
+          endTime := (plan c).termTime + (Lifecycle.stopSblocks c.blocks (plan c).failed (plan c).inited blocks
+            (plan c).timers c.oa c.os).dur },
+       .next ())
+
+/-- the state in which run_forever is entered -/
+def rfInit (c : Cfg) : RfState :=
+  { error := if c.cause.before then some (if c.cause.kind.isError then .failure else .cancelled) else none
+    storage := storage0 c.blocks }
+
+theorem drop_cons_getD {α : Type} (l : List α) (d : α) : ∀ (i : Nat) (b : α) (rest : List α),
+    l.drop i = b :: rest → l.getD i d = b ∧ l.drop (i + 1) = rest := by
+  induction l with
+  | nil => intro i b rest h; simp at h
+  | cons a as ih =>
+    intro i b rest h
+    cases i with
+    | zero => simp at h; simp [h.1, h.2]
+    | succ i => simpa using ih i b rest (by simpa using h)
+
+/-- the start loop of run_forever is the model's `startLoop` -/
+theorem rf_startLoop (c : Cfg) : ∀ (l : List Blk) (i : Nat) (s : RfState), c.blocks.drop i = l →
+    TrL.runForever_for1 (rfPrims c) (List.range' i l.length) s =
+      ({ s with trace := s.trace ++ (startLoop i l).1, started := s.started ++ (startLoop i l).2.1 },
+       if (startLoop i l).2.2 then .raise .failure else .next ()) := by
+  intro l
+  induction l with
+  | nil => intro i s _; simp [TrL.runForever_for1, pure_apply, startLoop]
+  | cons b rest ih =>
+    intro i s h
+    obtain ⟨hb, hrest⟩ := drop_cons_getD c.blocks {} i b rest h
+    have hb' : blk c.blocks i = b := hb
+    simp only [List.length_cons, List.range'_succ]
+    unfold TrL.runForever_for1 startLoop
+    simp only [bind_apply, hb']
+    cases b.fStart with
+    | true => simp
+    | false =>
+      simp only [Bool.false_eq_true, if_false]
+      rw [ih (i + 1) _ hrest]
+      simp
+
+theorem rf_saveLoop (c : Cfg) : ∀ (l : List Nat) (s : RfState),
+    TrL.runForever_for2 (rfPrims c) l s =
+      ({ s with storage := l.foldl (saveOne c.blocks (consumePending (plan c))) s.storage }, .next ()) := by
+  intro l
+  induction l with
+  | nil => intro s; simp [TrL.runForever_for2, pure_apply]
+  | cons k ks ih =>
+    intro s
+    unfold TrL.runForever_for2
+    simp only [bind_apply]
+    rw [ih]
+    simp
+
+theorem startLoop_all : ∀ (l : List Blk) (i : Nat), (startLoop i l).2.2 = false →
+    (startLoop i l).2.1 = List.range' i l.length := by
+  intro l
+  induction l with
+  | nil => intro i _; simp [startLoop]
+  | cons b rest ih =>
+    intro i h
+    unfold startLoop at h ⊢
+    cases hb : b.fStart with
+    | true => simp [hb] at h
+    | false =>
+      simp only [hb, Bool.false_eq_true, if_false] at h ⊢
+      simp [ih (i + 1) h, List.range'_succ]
+
+theorem plan_puts_eq (c : Cfg) :
+    (plan c).puts = (putBlocksOf c.blocks (plan c).started (plan c).phase).map (Ev.out · false) := rfl
+
+theorem plan_termTime (c : Cfg) : ∃ x y, (plan c).termTime = (match (plan c).phase with
+    | .startFailed | .afterStart | .notStarted => 0
+    | .asyncInit | .running => x
+    | .initFailed | .evalFailed => y) := ⟨_, _, rfl⟩
+
+theorem plan_timers_nil (c : Cfg) (h : (plan c).started = []) : (plan c).timers = [] := by
+  obtain ⟨pass2, ph, hpt⟩ := plan_timers c
+  rw [hpt, h]
+  simp [initTimers, putBlocksOf, armAll]
+
+@[simp] theorem consumePending_phase (p : Plan) : (consumePending p).phase = p.phase := rfl
+@[simp] theorem consumePending_started (p : Plan) : (consumePending p).started = p.started := rfl
+
+@[simp] theorem filter_const_true {α : Type} (l : List α) : List.filter (fun _ => true) l = l := by
+  induction l with
+  | nil => rfl
+  | cons a as ih => simp [ih]
+
+theorem run_more (c : Cfg) (r : Result) (h : runForever c = some r) (hb : c.cause.before = false) :
+    r.startOk = ((plan c).phase != .startFailed && (plan c).phase != .afterStart) ∧
+    r.error = some (if (plan c).isError then .failure else .cancelled) ∧
+    r.storage = saveStep c.blocks (consumePending (plan c)) (storage0 c.blocks) := by
+  unfold runForever at h
+  simp only [hb, Bool.false_eq_true, if_false] at h
+  unfold finish at h
+  simp only [consumePending, Bool.false_and, Bool.false_eq_true, if_false] at h
+  split at h
+  · simp at h
+  · simp only [Option.some.injEq] at h
+    subst h
+    exact ⟨rfl, rfl, rfl⟩
+
+theorem saveStep_eq (bs : List Blk) (p : Plan) (st : List Nat) :
+    saveStep bs p st = if (p.phase != .startFailed && p.phase != .afterStart) then p.started.foldl (saveOne bs p) st else st := rfl
+
+/-- the translated `run_forever`, with the try block left where the model's plan says, does what the
+    model's `runForever` does: same events, same started set, `start_ok`, recorded error, storage,
+    pending timers, end time; it ends by raising the recorded error, with no cancellation pending -/
+theorem runForever_spec (c : Cfg) (r : Result) (h : runForever c = some r) (hne : c.blocks.isEmpty = false) :
+    ∃ s' e, TrL.runForever (rfPrims c) (rfInit c) = (s', .raise e) ∧ r.error = some e ∧ s'.error = some e ∧
+      s'.trace = r.trace ∧ s'.started = r.started ∧ s'.startOk = r.startOk ∧ s'.storage = r.storage ∧
+      s'.timers = r.timers ∧ s'.endTime = r.endTime ∧ s'.pending = false := by
+  cases hb : c.cause.before with
+  | true =>
+    unfold runForever at h
+    simp only [hb, if_true, Option.some.injEq] at h
+    subst h
+    unfold TrL.runForever
+    cases hk : c.cause.kind.isError <;>
+      (simp [rfInit, hb, hk, bind_apply, get_apply, pure_apply, raise_apply, tryExcept_apply]
+       exact ⟨_, _, ⟨rfl, rfl⟩, rfl, rfl, rfl, rfl, rfl, rfl, rfl, rfl, rfl⟩)
+  | false =>
+    obtain ⟨hso, herr, hsto⟩ := run_more c r h hb
+    have sp := run_spec c r h hb
+    have hrange : List.range c.blocks.length = List.range' 0 c.blocks.length := List.range_eq_range'
+    have hsl := fun s => rf_startLoop c c.blocks 0 s (by simp)
+    have hpc : (plan c).pendingCancel = true → (plan c).phase = .running := by
+      intro hp
+      have : (plan c).pendingCancel = ((plan c).phase == .running && _ && _ && _) := rfl
+      rw [this] at hp
+      simp only [Bool.and_eq_true, beq_iff_eq] at hp
+      exact hp.1.1.1
+    obtain ⟨tx, ty, htt⟩ := plan_termTime c
+    have hall : (startLoop 0 c.blocks).2.2 = false → (startLoop 0 c.blocks).2.1 ≠ [] := by
+      intro hf
+      rw [startLoop_all _ _ hf]
+      cases hbl : c.blocks with
+      | nil => simp [hbl] at hne
+      | cons _ _ => simp [List.range'_succ]
+    unfold TrL.runForever
+    rcases plan_phase_cases c with ⟨hsf, hph, hie⟩ | ⟨hsf, hph⟩ | ⟨hsf, hph⟩ | ⟨hsf, hph, hie⟩ | ⟨hsf, hph, hie⟩ | ⟨hsf, hph⟩
+    · -- a start() raised
+      have hputs : (plan c).puts = [] := by rw [plan_puts_eq, hph]; simp [putBlocksOf]
+      have htt0 : (plan c).termTime = 0 := by rw [htt, hph]
+      by_cases hst : (startLoop 0 c.blocks).2.1 = []
+      · have hst' : (plan c).started = [] := hst
+        have hoa : c.oa = [] := by
+          have := sp.permA; rw [hst'] at this; exact List.Perm.eq_nil (by simpa [setA] using this)
+        have hos : c.os = [] := by
+          have := sp.permS; rw [hst'] at this; exact List.Perm.eq_nil (by simpa [setS] using this)
+        simp [rfInit, hb, hne, bind_apply, get_apply, pure_apply, raise_apply, tryExcept_apply, ite_apply',
+          hrange, hsl, hsf, hph, hie, sp.trace, sp.started, sp.timers, sp.endTime, hso, herr, hsto,
+          plan_startEvs, plan_started, saveStep_eq, hst, hputs, htt0, hoa, hos, plan_timers_nil c hst',
+          Lifecycle.stopSblocks, awaitJobs, sortJobs, sortEnds, stopSyncAll]
+        exact ⟨_, _, ⟨rfl, rfl⟩, rfl, rfl, rfl, rfl, rfl, rfl, rfl, rfl, rfl⟩
+      · simp [rfInit, hb, hne, bind_apply, get_apply, pure_apply, raise_apply, tryExcept_apply, ite_apply',
+          hrange, hsl, hsf, hph, hie, sp.trace, sp.started, sp.timers, sp.endTime, hso, herr, hsto,
+          plan_startEvs, plan_started, saveStep_eq, hst, hputs, htt0]
+        exact ⟨_, _, ⟨rfl, rfl⟩, rfl, rfl, rfl, rfl, rfl, rfl, rfl, rfl, rfl⟩
+    · -- the request arrives while run_forever yields after the start loop
+      have hputs : (plan c).puts = [] := by rw [plan_puts_eq, hph]; simp [putBlocksOf]
+      have htt' : (plan c).termTime = 0 := by rw [htt, hph]
+      cases hie : (plan c).isError <;>
+        (simp [rfInit, hb, hne, bind_apply, get_apply, pure_apply, raise_apply, tryExcept_apply, ite_apply',
+          hrange, hsl, hsf, hph, sp.trace, sp.started, sp.timers, sp.endTime, hso, herr, hsto,
+          plan_startEvs, plan_started, saveStep_eq, hall hsf, abortBy, rf_saveLoop, hputs, htt', hie]
+         first
+           | exact ⟨_, _, ⟨rfl, rfl⟩, rfl, rfl, rfl, rfl, rfl, rfl, rfl, rfl, rfl⟩
+           | exact ⟨_, _, ⟨rfl, rfl⟩, rfl, rfl, rfl, rfl, by decide, rfl, rfl, rfl, rfl⟩)
+    · -- … during the asynchronous initialisation
+      have hputs : (plan c).puts = [] := by rw [plan_puts_eq, hph]; simp [putBlocksOf]
+      have htt' : (plan c).termTime = tx := by rw [htt, hph]
+      cases hie : (plan c).isError <;>
+        (simp [rfInit, hb, hne, bind_apply, get_apply, pure_apply, raise_apply, tryExcept_apply, ite_apply',
+          hrange, hsl, hsf, hph, sp.trace, sp.started, sp.timers, sp.endTime, hso, herr, hsto,
+          plan_startEvs, plan_started, saveStep_eq, hall hsf, abortBy, rf_saveLoop, hputs, htt', hie]
+         first
+           | exact ⟨_, _, ⟨rfl, rfl⟩, rfl, rfl, rfl, rfl, rfl, rfl, rfl, rfl, rfl⟩
+           | exact ⟨_, _, ⟨rfl, rfl⟩, rfl, rfl, rfl, rfl, by decide, rfl, rfl, rfl, rfl⟩)
+    · -- the second initialisation pass fails
+      have hputs : (plan c).puts = [] := by rw [plan_puts_eq, hph]; simp [putBlocksOf]
+      have htt' : (plan c).termTime = ty := by rw [htt, hph]
+      simp [rfInit, hb, hne, bind_apply, get_apply, pure_apply, raise_apply, tryExcept_apply, ite_apply',
+          hrange, hsl, hsf, hph, sp.trace, sp.started, sp.timers, sp.endTime, hso, herr, hsto,
+          plan_startEvs, plan_started, saveStep_eq, hall hsf, abortBy, rf_saveLoop, hputs, htt', hie]
+      first
+        | exact ⟨_, _, ⟨rfl, rfl⟩, rfl, rfl, rfl, rfl, rfl, rfl, rfl, rfl, rfl⟩
+        | exact ⟨_, _, ⟨rfl, rfl⟩, rfl, rfl, rfl, rfl, by decide, rfl, rfl, rfl, rfl⟩
+    · -- the first evaluation fails
+      have hputs : (plan c).puts = [] := by rw [plan_puts_eq, hph]; simp [putBlocksOf]
+      have htt' : (plan c).termTime = ty := by rw [htt, hph]
+      simp [rfInit, hb, hne, bind_apply, get_apply, pure_apply, raise_apply, tryExcept_apply, ite_apply',
+          hrange, hsl, hsf, hph, sp.trace, sp.started, sp.timers, sp.endTime, hso, herr, hsto,
+          plan_startEvs, plan_started, saveStep_eq, hall hsf, abortBy, rf_saveLoop, hputs, htt', hie]
+      first
+        | exact ⟨_, _, ⟨rfl, rfl⟩, rfl, rfl, rfl, rfl, rfl, rfl, rfl, rfl, rfl⟩
+        | exact ⟨_, _, ⟨rfl, rfl⟩, rfl, rfl, rfl, rfl, by decide, rfl, rfl, rfl, rfl⟩
+    · -- the circuit runs until the request (possibly made inside the simulation task, with an exception after it)
+      have hputs : (plan c).puts = (plan c).puts := rfl
+      have htt' : (plan c).termTime = tx := by rw [htt, hph]
+      cases hie : (plan c).isError <;> cases hpe : (plan c).pendingCancel <;>
+        (simp [rfInit, hb, hne, bind_apply, get_apply, pure_apply, raise_apply, tryExcept_apply, ite_apply',
+          hrange, hsl, hsf, hph, sp.trace, sp.started, sp.timers, sp.endTime, hso, herr, hsto,
+          plan_startEvs, plan_started, saveStep_eq, hall hsf, abortBy, rf_saveLoop, hputs, htt', hie, hpe]
+         first
+           | exact ⟨_, _, ⟨rfl, rfl⟩, rfl, rfl, rfl, rfl, rfl, rfl, rfl, rfl, rfl⟩
+           | exact ⟨_, _, ⟨rfl, rfl⟩, rfl, rfl, rfl, rfl, by decide, rfl, rfl, rfl, rfl⟩)
+
+/-! ### `_init_sblocks_async` -/
+
+structure IaState where
+  jobs : Option (List Job) := none      -- what was handed to `_run_tasks("async init", …)`
+
+def initJobOf (bs : List Blk) (k : Nat) : Job :=
+  ⟨k, some (blk bs k).initDur, (blk bs k).initTimeout, !(blk bs k).fInitAsync⟩
+
+@[reducible] def iaPrims (bs : List Blk) : TrL.InitAsyncPrims IaState TExc Nat Job where
+  asyncBlocks := (List.range bs.length).filter fun k =>
+    (blk bs k).kind == .async || (blk bs k).kind == .ainit || (blk bs k).kind == .aplain || (blk bs k).kind == .outa
+  isInitialized _ k := (blk bs k).restoredOk       -- after the first synchronous pass: restored or nothing
+  hasInitAsync k := ((blk bs k).kind == .async || (blk bs k).kind == .ainit) && (blk bs k).hasInitAsync
+  initTimeout k := ((blk bs k).initTimeout : Int)
+  initTask k := initJobOf bs k
+  runTasksInit jobs := fun _ => (⟨some jobs⟩, .next ())
+
+theorem initJobs_suffix (bs : List Blk) : ∀ (l : List Blk) (i : Nat), bs.drop i = l →
+    ((l.zipIdx i).map (fun p => (p.2, p.1))).filterMap (fun (k, b) =>
+        if b.wantsInitAsync then some (⟨k, some b.initDur, b.initTimeout, !b.fInitAsync⟩ : Job) else none) =
+      ((List.range' i l.length).filter fun k => (blk bs k).wantsInitAsync).map (initJobOf bs) := by
+  intro l
+  induction l with
+  | nil => intro i _; simp
+  | cons b rest ih =>
+    intro i h
+    obtain ⟨hb, hrest⟩ := drop_cons_getD bs {} i b rest h
+    have hb' : blk bs i = b := hb
+    simp only [List.zipIdx_cons, List.map_cons, List.length_cons, List.range'_succ, List.filterMap_cons,
+      List.filter_cons, hb']
+    rw [ih (i + 1) hrest]
+    cases b.wantsInitAsync with
+    | true => simp [initJobOf, hb']
+    | false => simp
+
+theorem initJobs_eq (bs : List Blk) :
+    initJobs bs = ((List.range bs.length).filter fun k => (blk bs k).wantsInitAsync).map (initJobOf bs) := by
+  have := initJobs_suffix bs bs 0 (by simp)
+  rw [List.range_eq_range']
+  simpa [initJobs, Lifecycle.enum] using this
+
+/-- the translated `_init_sblocks_async` hands exactly the model's `initJobs` to `_run_tasks`
+    (in creation order), and does not call it when there is none -/
+theorem initSblocksAsync_spec (bs : List Blk) :
+    TrL.initSblocksAsync (iaPrims bs) {} =
+      (⟨if (initJobs bs).isEmpty then none else some (initJobs bs)⟩, .next ()) := by
+  have hfilter : List.filter (fun k => (!(blk bs k).restoredOk) &&
+        (((blk bs k).kind == .async || (blk bs k).kind == .ainit) && (blk bs k).hasInitAsync) &&
+        decide (((blk bs k).initTimeout : Int) > 0))
+      (List.filter (fun k => (blk bs k).kind == .async || (blk bs k).kind == .ainit || (blk bs k).kind == .aplain
+        || (blk bs k).kind == .outa) (List.range bs.length)) =
+      List.filter (fun k => (blk bs k).wantsInitAsync) (List.range bs.length) := by
+    rw [List.filter_filter]
+    apply List.filter_congr
+    intro k _
+    simp only [Blk.wantsInitAsync]
+    cases (blk bs k).kind <;> cases (blk bs k).hasInitAsync <;> cases (blk bs k).restoredOk <;> simp
+  unfold TrL.initSblocksAsync
+  simp only [bind_apply, get_apply, hfilter, ← initJobs_eq]
+  cases h : (initJobs bs).isEmpty <;> simp [bind_apply, pure_apply]
+
 end Edzed.LifecycleTie
